@@ -21,12 +21,44 @@ fn raw_cif(p: &PDB) -> Vec<u8> {
 /// diagnostic triggers for PDB text (each produces a known diagnostic class)
 fn mutate_pdb(rng: &mut Rng, text: &str) -> (String, &'static str) {
     let mut lines: Vec<String> = text.lines().map(str::to_string).collect();
-    let k = rng.below(15);
+    let k = rng.below(19);
     let label = match k {
+        17 | 18 => {
+            // SEQRES lists a residue that has no coordinates: what the reader makes of it must not depend on the level
+            let names = ["MET", "GLY", "ALA", "SER", "VAL", "LEU"];
+            let n = 4 + rng.below(3);
+            let missing = 1 + rng.below(n - 2);
+            let mut t = format!("DBREF  1ABC A {:>4}  {:>4}  {:<6} {:<8} {:<12} {:>5}  {:>5} \n", 1, n, "UNP", "P12345", "TEST_HUMAN", 1, n);
+            t.push_str(&format!("SEQRES   1 A {:>4}  {}\n", n, names[..n].join(" ")));
+            let mut serial = 1;
+            for r in 0..n {
+                if r == missing {
+                    continue;
+                }
+                t.push_str(&format!("ATOM  {serial:>5} {:<4} {:>3} A{:>4}    {:>8.3}{:>8.3}{:>8.3}{:>6.2}{:>6.2}          {:>2}  \n", "CA", names[r], r + 1, r as f64 * 3.8, 1.0, 2.0, 1.0, 10.0, "C"));
+                serial += 1;
+            }
+            t.push_str("END\n");
+            return (t, "seqres-gap");
+        }
         12 => {
             // a remark that is too long and has a character no text may hold: what the levels make of the two together
             lines.insert(0, format!("REMARK   2 {}\t{}", "X".repeat(40), "Y".repeat(40)));
             "long-remark-with-tab"
+        }
+        15 => {
+            // one line with two things to report: too long, and a remark-type-number that is no number
+            lines.insert(0, format!("REMARK abc {}", "X".repeat(75)));
+            "long-remark-bad-number-one-line"
+        }
+        16 => {
+            // a long remark and a MASTER record that counts the remarks
+            let n_remark = lines.iter().filter(|l| l.starts_with("REMARK")).count() + rng.below(2);
+            lines.insert(0, format!("REMARK   2 {}", "X".repeat(75)));
+            let at = lines.iter().position(|l| l.starts_with("END")).unwrap_or(lines.len());
+            let n_atoms = lines.iter().filter(|l| l.starts_with("ATOM") || l.starts_with("HETATM")).count();
+            lines.insert(at, format!("MASTER    {n_remark:5}    0    0    0    0    0    0    0{n_atoms:5}    0    0    0"));
+            "long-remark+master"
         }
         13 => {
             lines.insert(0, "REMARK   2 A\tB".to_string());
